@@ -96,6 +96,12 @@ register("C08", "exploration",
  "Hypothesis-generated operation histories against a reference queue model; commit-hook conservation invariant",
  "DESIGN.md section 3 C08")
 
+register("C18", "exploration",
+ "For 4 gate workflows a persistent and a transient signal is injected before EVERY delivery position of the FIFO run and of a SignalStage-hold-back schedule, and at drawn positions with drawn payloads under Hypothesis schedules; every sampled (thorough: every) crash point of the signalled and un-signalled run is recovered. Persistent: gate task runs exactly twice, second run sees name+payload, gate and workflow finish, buffer empty; transient: effective iff the gate was durably SUSPENDED when the handler ran, else no effect; no signal: gate stays SUSPENDED across restart and recovery.",
+ "The SignalStage-vs-suspending-RunTask statement-level interleaving is not covered in this revision (single worker); one signal per gate; SQLite only.",
+ "exhaustive signal-position sweep + Hypothesis schedules + crash-point enumeration, reference outcome per signal kind",
+ "DESIGN.md section 3 C18")
+
 NOT_APPLICABLE = {}
 
 def main():
